@@ -20,6 +20,8 @@ type PropConfig struct {
 	ID          string   `json:"id"`
 	Packages    []string `json:"packages"`
 	Functions   []string `json:"functions"`
+	GuardExempt map[string]string `json:"guard_exempt"` // accessor of guarded state not under contract -> reason
+	GuardCoverage bool `json:"guard_coverage"` // require every accessor of guarded state in the packages to be under contract
 	Lemmas      []string `json:"lemmas"`
 	Uncovered   []string `json:"uncovered_clauses"`
 	Assumptions []string `json:"assumptions"`
@@ -245,6 +247,46 @@ func cmdCheck(record bool, args []string) int {
 			auditInfo = append(auditInfo, map[string]interface{}{"func": s.Func, "kind": s.Kind, "pos": s.Pos, "under_contract": under[s.Func]})
 		}
 	}
+	// lock discipline coverage: every function that touches guarded state must be under contract (or exempted with a reason)
+	var coverageFails []*OblResult
+	if pc.GuardCoverage && len(w.guarded) > 0 && *only == "" {
+		under := map[string]bool{}
+		for _, f := range fns {
+			under[shortFuncName(f)] = true
+		}
+		var all []*ssa.Function
+		for _, n := range sortedFuncNames(idx) {
+			f := idx[n]
+			if f.Pkg == nil || f.Synthetic != "" {
+				continue
+			}
+			for _, pp := range pc.Packages {
+				if f.Pkg.Pkg.Path() == pp {
+					all = append(all, f)
+					break
+				}
+			}
+		}
+		acc := w.guardedAccessors(all)
+		var fields []string
+		for k := range acc {
+			fields = append(fields, k)
+		}
+		sort.Strings(fields)
+		for _, fld := range fields {
+			for _, fn := range acc[fld] {
+				if under[fn] {
+					continue
+				}
+				if why, ok := pc.GuardExempt[fn]; ok {
+					w.assume("accessor of guarded state " + fld + " not under contract: " + fn + " (" + why + ")")
+					continue
+				}
+				coverageFails = append(coverageFails, &OblResult{Name: fn + "#guard.coverage{" + fld + "}", Func: fn, Kind: "guard.coverage", Status: "sat", Solver: "audit",
+					Clause: "every function touching guarded state " + fld + " is under contract (lock discipline)", Output: "function " + fn + " accesses " + fld + " and is not in the property's function list"})
+			}
+		}
+	}
 	// lemmas
 	lj, lerrs := lemmaJobs(w, pc, workDir)
 	translErrs = append(translErrs, lerrs...)
@@ -284,6 +326,7 @@ func cmdCheck(record bool, args []string) int {
 			fmt.Printf("  %-8s %-7s %6.2fs %s\n", r.Status, r.Solver, r.Secs, r.Name)
 		}
 	}
+	results = append(results, coverageFails...)
 	return report(w, pc, *tier, seed, record, *only != "", results, translErrs, funcsUnder, t0, tLoad, tTrans)
 }
 
@@ -344,4 +387,13 @@ func cmdDump(args []string) int {
 		}
 	}
 	return 0
+}
+
+func sortedFuncNames(m map[string]*ssa.Function) []string {
+	out := make([]string, 0, len(m))
+	for k := range m {
+		out = append(out, k)
+	}
+	sort.Strings(out)
+	return out
 }
